@@ -1,3 +1,4 @@
+import errno
 import grp
 import os
 import pwd
@@ -90,7 +91,15 @@ class RealFs(RealVolumeOf, Fs):
         os.mkdir(path, mode)
 
     def move(self, path, dest):
-        return fs.move(path, dest)
+        try:
+            os.rename(path, dest)
+        except OSError as e:
+            # copy + delete only helps across file systems; for any other
+            # error (EBUSY for a mount point, EACCES, ...) it would copy the
+            # entry into the trash and then fail while deleting the original
+            if e.errno != errno.EXDEV:
+                raise
+            return fs.move(path, dest)
 
     def remove_file(self, path):
         fs.remove_file(path)
